@@ -53,6 +53,63 @@ def add_private(rng, g, st):
     return out
 
 
+def endpoint_cases(tier, seed):
+    import gen_text as GX
+    rng = random.Random(seed * 7919 + 88)
+    out = []
+    n = 110 if tier == "quick" else 3000
+    for i in range(n):
+        txt = (lambda r: hostile_text(r, structural=False).decode("utf-8", "replace")) if i % 2 == 0 else None
+        g = GX.TG(rng, text=txt, annot_p=0.3)
+        kind = i % 4
+        if kind == 0:
+            ast = g.stmt(0, ncomp=rng.randint(1, 2), allow_pairs=False, syms=rng.choice([None, ['A,p', 'Bdir,p', 'E,p', 'P,p', 'Bind,p']]))
+        elif kind == 1:
+            ast = g.stmt(rng.randint(1, 2 if tier == "quick" else 3), nest_syms=GX.NEST)
+        else:
+            ast = g.stmt(rng.randint(0, 2))
+        out.append((GX.r_stmt(ast), rng.choice(FLAGS)))
+    return out
+
+
+def run_endpoint(build, V, tier, seed, dist):
+    """Endpoint level: statements through ParseStatement + ConvertIGScriptToVisualTree; the model prints the dumped tree."""
+    cases = endpoint_cases(tier, seed)
+    reqs = [dict(vis_req("", f), mode="visd", stmt=t) for t, f in cases]
+    for r in reqs:
+        del r["tree"]
+    impl = run_pool([build.obs], reqs, NCPU, timeout=60)
+    lines, idx = [], []
+    for i, r in enumerate(impl):
+        if r.get("err") == "NO_ERROR_DURING_PARSING" and len(r.get("nodes", [])) == 1 and "(X " not in r["nodes"][0]:
+            lines.append("visn\t%s\t%s" % (cases[i][1], r["nodes"][0]))
+            idx.append(i)
+    model = dict(zip(idx, run_lines([build.modelrun], lines))) if build.modelrun else {}
+    accepted = mism = 0
+    for i, ((t, f), r) in enumerate(zip(cases, impl)):
+        case = {"stmt": t, "flags": f}
+        if "panic" in r or "exit" in r or "timeout" in r:
+            V.violation("crash:visual-endpoint", case, observed={k: r[k] for k in r if k != "stack"}, what="visual conversion panicked / exited / hung")
+            continue
+        if r.get("err") != "NO_ERROR_DURING_PARSING":
+            dist["endpoint_rejected"] = dist.get("endpoint_rejected", 0) + 1
+            continue
+        accepted += 1
+        ok = r["valid"]
+        if not ok:
+            V.violation("json-invalid:" + classify_invalid(out_bytes(r).decode("utf-8", "replace")), case, observed={"out": r["out"][:600]},
+                        what="successful visual output is not a JSON document")
+        m = model.get(i)
+        if m is not None:
+            exp = bytes.fromhex(m[4:]) if m.startswith("ok:") else None
+            got = out_bytes(r)
+            if exp != got:
+                mism += 1
+                if mism <= 2:
+                    V.broke("correspondence:vis-endpoint", json.dumps({"diff(a=impl,b=model)": first_diff(got, exp), "model_res": m[:12], "flags": f, "stmt": t}))
+    return len(cases), accepted, mism, [{"stmt": cases[0][0], "flags": cases[0][1]}, {"stmt": cases[1][0], "flags": cases[1][1]}]
+
+
 def run(args):
     build = prepare(verbose=True)
     V = Verdict("C08", args.tier, args.seed)
@@ -70,7 +127,7 @@ def run(args):
     texts = [wstmt(st) for st, _ in cases]
     impl = run_pool([build.obs], [vis_req(t, f) for t, (_, f) in zip(texts, cases)], NCPU, timeout=20)
     model = run_lines([build.modelrun], ["vis\t%s\t%s" % (f, t) for t, (_, f) in zip(texts, cases)]) if build.modelrun else None
-    distinct, nontrivial, mism, fmt_only = set(), 0, 0, 0
+    distinct, nontrivial, mism, fmt_only, nwf = set(), 0, 0, 0, 0
     dist = {"flags": {}, "hostile_bytes": 0, "nested_depth": {}, "invalid_by_first_bad_byte": {}}
     for i, ((st, f), t, r) in enumerate(zip(cases, texts, impl)):
         case = {"tree": t, "flags": f}
@@ -84,7 +141,7 @@ def run(args):
                 nontrivial += 1
         m = model[i] if model else None
         if "panic" in r or "exit" in r or "timeout" in r:
-            if m is not None and m.startswith("panic"):
+            if m is not None and m.split(" ")[-1].startswith("panic"):
                 continue
             V.violation("crash:visual-print", case, observed={k: r[k] for k in r if k != "stack"}, what="visual printer panicked / exited / hung on a built tree")
             continue
@@ -106,6 +163,9 @@ def run(args):
             if m.startswith("bad:"):
                 V.broke("model:vis", m)
                 continue
+            wf, _, m = m.partition(" ")
+            if wf == "nwf":
+                nwf += 1
             exp = bytes.fromhex(m[4:]) if m.startswith("ok:") else None
             got = out_bytes(r) if r["err"] == "NO_ERROR" else None
             if exp is None and got is None:
@@ -124,12 +184,13 @@ def run(args):
                         V.broke("correspondence:vis", json.dumps({"diff(a=impl,b=model)": first_diff(got, exp), "err": r["err"], "model_res": m[:12], "flags": f, "tree": t}))
     if mism:
         V.broken[-1]["detail"] += " (%d disagreeing cases)" % mism
+    ep_n, ep_acc, ep_mism, ep_samples = run_endpoint(build, V, args.tier, args.seed, dist) if not args.replay else (0, 0, 0, [])
     if model is None:
         V.broke("model:extraction", build.coq_log[-1500:])
     cov = std_coverage(po, len(cases), nontrivial,
                        "T: random built statements (degenerate: single component / properties without their component; nesting depth <= 7; up to 9 fields; private links), half of them with texts/annotations/shared text over the hostile alphabet (quotes, backslash, CR, LF, control bytes, non-ASCII, invalid UTF-8), each under 3-4 of the 32 option vectors (thorough: every 10th under all 32). Non-trivial = distinct (statement, vector) with a combination or a nested statement.",
                        [{"tree": texts[0], "flags": cases[0][1]}, {"tree": texts[len(texts) // 2], "flags": cases[len(texts) // 2][1]}],
-                       {"distribution": dist, "tree_level": len(cases), "correspondence_mismatches": mism, "format_only_differences": fmt_only})
+                       {"distribution": dist, "tree_level": len(cases), "endpoint_level": {"statements": ep_n, "accepted": ep_acc, "correspondence_mismatches": ep_mism, "samples": ep_samples}, "correspondence_mismatches": mism, "outside_theorem_guard": nwf, "format_only_differences": fmt_only})
     return V.finish(cov, po["assumptions"])
 
 
